@@ -326,7 +326,7 @@ def trace_property(pid, tier, seed, workdir):
         "evaluations": total,
         "distinct_nontrivial": dn,
         "rule": rule,
-        "samples": sample_events(paths[0], 2, lambda e: pred(e, None) if pid not in ("C02",) else e["ev"] == "act") or sample_events(paths[0], 1),
+        "samples": sample_events(paths[0], 2, lambda e: e["ev"] == "act" and e["ph"] == 1) or sample_events(paths[0], 1),
         "spec_models": [{"model": m["name"], "distinct_states": m["distinct"], "states_generated": m["generated"],
                          "depth": m["depth"], "seconds": m["seconds"]} for m in mcs],
         "trace_shards": [{"driver": s[0], "events": r["lines"], "seconds": r["seconds"]} for s, r in zip(shards, results_t)],
@@ -336,6 +336,14 @@ def trace_property(pid, tier, seed, workdir):
         "category_counts": sum_counts(results),
         "exhaustive": False,
     }
+    if pid in ("C02", "C13", "C10", "C08"):
+        import vcheck as _v
+        cov["captures_by_trap_colour_cause"] = dict(sorted(_v.LAST_BREAKDOWN.items()))
+        missing = [("%s %s %s" % (t, c, k)) for t in ("c3", "f3", "c6", "f6") for c in ("gold", "silver")
+                   for k in ("stepped in", "pushed/pulled in", "supporter stepped away", "supporter pushed/pulled away")
+                   if ("%s %s %s" % (t, c, k)) not in _v.LAST_BREAKDOWN]
+        if missing:
+            cov.setdefault("coverage_gaps", []).extend("no capture: " + m for m in missing)
     if pid == "C06":
         # beyond the listed properties: the recorded implementation ORDER of the rule-only list (X01);
         # an observation, never a violation
